@@ -54,11 +54,27 @@ pub struct Case {
 }
 
 fn timeout_val() -> BoxedStrategy<u64> {
-    prop_oneof![4 => 5u64..200, 2 => 200u64..5000, 1 => proptest::sample::select(&[3u64, 1000, 60_000, 3_600_000, 86_400_000][..])].boxed()
+    prop_oneof![8 => 5u64..200, 4 => 200u64..5000, 2 => proptest::sample::select(&[3u64, 1000, 60_000, 3_600_000, 86_400_000][..]), 1 => proptest::sample::select(&[u64::MAX, u64::MAX - 1, u64::MAX - 2, u64::MAX - 3, 1u64 << 53, (1u64 << 32) * 1000][..])].boxed()
+}
+
+/// practically infinite timeouts (the three largest codes stand for Durations that milliseconds in a u64 cannot express)
+const HUGE: u64 = 100_000_000;
+
+fn dur(t: u64) -> Duration {
+    match t {
+        u64::MAX => Duration::MAX,
+        x if x == u64::MAX - 1 => Duration::from_secs(u64::MAX),
+        x if x == u64::MAX - 2 => Duration::from_secs(18_446_744_073_709_553),
+        _ => Duration::from_millis(t),
+    }
 }
 
 /// a delay relative to timeout T that is clearly before (<= T-2) or clearly after (>= T+2), or never
 fn rel_delay(t: u64) -> BoxedStrategy<Option<u64>> {
+    if t >= HUGE {
+        // nothing can come after such a deadline: the response always arrives before it
+        return (0u64..3000).prop_map(Some).boxed();
+    }
     let before = (0u64..=t.saturating_sub(2).max(0)).prop_map(Some);
     let after = (t + 2..t + 2 + (t / 2 + 20)).prop_map(Some);
     prop_oneof![4 => before, 3 => after, 1 => Just(None)].boxed()
@@ -72,7 +88,8 @@ fn op_strat() -> BoxedStrategy<Op> {
         prop_oneof![3 => Just(None), 2 => vec(any::<bool>(), n).prop_map(|m| Some(m.iter().enumerate().filter(|(_, b)| **b).map(|(i, _)| i).collect::<Vec<usize>>()))].boxed()
     }
     let timed_search = (0u64..300, timeout_val(), any::<bool>(), 0usize..6).prop_flat_map(|(start_ms, t, adapted, n)| {
-        (vec(prop_oneof![6 => (0u64..=t.saturating_sub(2)).prop_map(Some), 1 => (t + 2..t + 50).prop_map(Some), 1 => Just(None)], n + 1), page_ends(n))
+        let gap = if t >= HUGE { (0u64..400).prop_map(Some).boxed() } else { prop_oneof![6 => (0u64..=t.saturating_sub(2)).prop_map(Some), 1 => (t + 2..t + 50).prop_map(Some), 1 => Just(None)].boxed() };
+        (vec(gap, n + 1), page_ends(n))
             .prop_map(move |(gaps, paged)| Op { kind: Kind::Search { gaps, adapted, paged, mode: 0 }, start_ms, timeout_ms: Some(t), arrival_ms: None, chained: false })
     });
     let untimed_search = (0u64..300, any::<bool>(), (1usize..5).prop_flat_map(|n| (vec((0u64..400).prop_map(Some), n), page_ends(n - 1))))
@@ -121,7 +138,7 @@ async fn run_op(ldap: &mut ldap3::Ldap, i: usize, op: &Op, t0: Instant) -> OpObs
     let started = Instant::now();
     o.t_start_ms = (started - t0).as_millis() as u64;
     if let Some(t) = op.timeout_ms {
-        ldap.with_timeout(Duration::from_millis(t));
+        ldap.with_timeout(dur(t));
     }
     match &op.kind {
         Kind::Single(k) => {
@@ -495,13 +512,144 @@ pub fn check(case: &Case, obs: &mut Obs) -> Result<(), Fail> {
     Ok(())
 }
 
+
+// ---------------------------------------------------------------- lane: a deadline behind a blocked writer
+
+#[derive(Clone, Debug, Serialize, Deserialize)]
+pub struct QCase {
+    /// untimed operations already queued at the driver, which is stuck writing the first of them (send buffer full)
+    pub queued: u8,
+    pub timeout_ms: u64,
+    /// how long after the deadline the socket becomes writable again
+    pub unblock_after_ms: u64,
+    pub search: bool,
+    pub sched: u64,
+}
+
+fn q_strat(_: &Ctx) -> BoxedStrategy<QCase> {
+    (prop_oneof![3 => 0u8..8, 2 => 8u8..40, 2 => 40u8..90], prop_oneof![5u64..300, 300u64..3000], 1u64..5000, any::<bool>(), any::<u64>())
+        .prop_map(|(queued, timeout_ms, unblock_after_ms, search, sched)| QCase { queued, timeout_ms, unblock_after_ms, search, sched })
+        .boxed()
+}
+
+pub fn check_q(c: &QCase, obs: &mut Obs) -> Result<(), Fail> {
+    let cc = c.clone();
+    let out = sim::run_sim(c.sched, async move {
+        let conn = sim::connect();
+        let wire = conn.wire.clone();
+        let w2 = wire.clone();
+        let srv = tokio::spawn(async move {
+            // answers everything at once, as soon as it can be read
+            loop {
+                match w2.recv().await {
+                    Recv::Msg(Ok(m), _, _) => {
+                        if let Some(tag) = m.req.response_tag() {
+                            if tag == 5 {
+                                w2.push(&RespMsg::new(m.id, Resp::Entry(Entry::simple("cn=late"))).encode());
+                            }
+                            w2.push(&RespMsg::new(m.id, Resp::result(tag, Res::ok("answered"))).encode());
+                        }
+                    }
+                    Recv::Closed | Recv::Garbage(_) => break,
+                    _ => {}
+                }
+            }
+        });
+        wire.block_writes(true);
+        let mut queued = Vec::new();
+        for i in 0..cc.queued {
+            let mut l = conn.ldap.clone();
+            queued.push(tokio::spawn(async move { l.delete(&simops::marker(i as usize)).await.map(|r| r.text).map_err(|e| err_kind(&e)) }));
+        }
+        quiesce().await;
+        let mut ldap = conn.ldap.clone();
+        let started = Instant::now();
+        ldap.with_timeout(Duration::from_millis(cc.timeout_ms));
+        let mk = simops::marker(200);
+        let end = if cc.search {
+            match ldap.streaming_search(&mk, Scope::Subtree, "(a=b)", vec!["a"]).await {
+                Err(e) => format!("start:{}", err_kind(&e)),
+                Ok(mut s) => {
+                    let r = match s.next().await {
+                        Ok(Some(_)) => "item".to_string(),
+                        Ok(None) => "end".to_string(),
+                        Err(e) => err_kind(&e),
+                    };
+                    let _ = s.finish().await;
+                    r
+                }
+            }
+        } else {
+            match ldap.compare(&mk, "a", "b").await {
+                Ok(_) => "ok".to_string(),
+                Err(e) => err_kind(&e),
+            }
+        };
+        let at = started.elapsed().as_millis() as u64;
+        tokio::time::sleep(Duration::from_millis(cc.unblock_after_ms)).await;
+        wire.block_writes(false);
+        let mut others = Vec::new();
+        for q in queued {
+            others.push(match tokio::time::timeout(Duration::from_secs(3600), q).await {
+                Err(_) => "hang".to_string(),
+                Ok(Err(_)) => "panic".to_string(),
+                Ok(Ok(Ok(t))) => t,
+                Ok(Ok(Err(e))) => e,
+            });
+        }
+        // a later operation on the handle that timed out
+        let later = match tokio::time::timeout(Duration::from_secs(3600), ldap.delete(&simops::marker(201))).await {
+            Err(_) => "hang".to_string(),
+            Ok(Ok(r)) => r.text,
+            Ok(Err(e)) => err_kind(&e),
+        };
+        tokio::time::sleep(Duration::from_secs(100)).await;
+        quiesce().await;
+        let in_use: Vec<i32> = {
+            let m = conn.msgmap.lock().unwrap();
+            let mut v: Vec<i32> = m.1.iter().copied().collect();
+            v.sort();
+            v
+        };
+        let g = *conn.gauges.lock().unwrap();
+        let sim::Conn { ldap: l0, driver, .. } = conn;
+        drop(l0);
+        drop(ldap);
+        let dend = sim::join_driver(driver).await;
+        srv.abort();
+        let _ = srv.await;
+        (end, at, others, later, in_use, g, dend)
+    });
+    let (end, at, others, later, in_use, g, dend) = match out {
+        SimResult::Done(v) => v,
+        SimResult::Hang => fail!("c12:hang", "history never completed: {:?}", c),
+    };
+    if let sim::DriveEnd::Panic(p) = &dend {
+        fail!(panic_sig(p), "driver panicked: {}", p);
+    }
+    let want = if c.search { "start:Timeout" } else { "Timeout" };
+    ensure!(end == want || (c.search && end == "Timeout"), "c12:no-timeout", "a {} ms timeout on an operation whose request could not even be written (send buffer full, {} requests queued) ended with {:?}", c.timeout_ms, c.queued, end);
+    ensure!(at >= c.timeout_ms && at <= c.timeout_ms + 1, "c12:wrong-instant", "with {} requests queued behind a blocked socket the {} ms timeout fired after {} ms", c.queued, c.timeout_ms, at);
+    ensure!(others.iter().all(|o| o == "answered"), "c12:connection-lost", "operations queued behind the blocked socket ended with {:?} after it became writable again", others);
+    ensure!(later == "answered", "c12:later-op", "an operation after the timeout ended with {:?}", later);
+    ensure!(in_use.is_empty() && g == (0, 0), "c12:id-not-released", "at the end ids {:?} are reserved and the driver holds {:?} routing entries", in_use, g);
+    obs.label(if c.queued >= 32 { "queued>=32" } else if c.queued > 0 { "queued<32" } else { "only-the-timed-request-blocked" });
+    if c.queued > 0 {
+        obs.nontrivial((c.queued, c.timeout_ms, c.unblock_after_ms, c.search));
+    }
+    Ok(())
+}
+
 pub fn property() -> Property {
     Property {
         id: "C12",
         level: "exploration",
-        rule: "generated histories of 1-8 operations over the paused virtual clock, concurrent on cloned handles or chained on one handle (40%: the next operation reuses the handle of the previous one, so a timed-out operation is followed by timed and untimed ones on the same handle): single-result operations and direct/EntriesOnly/PagedResults/[EntriesOnly,PagedResults] searches (paged ones with generated page ends, each answered by a follow-up request under a fresh id), each optionally timed (3 ms .. 1 day), started at generated instants; scripted response arrival clearly before the deadline (<= T-2 ms), clearly after it (late reply, >= T+2 ms) or never; searches with per-item gaps below or above the timeout. Oracle (exact to Tokio's 1 ms timer granularity): a timed operation returns Timeout at start+T if nothing arrived, else its own response at the arrival instant; a search's deadline restarts at every next() call, so it times out at the first gap > T and not otherwise however long the whole search takes; every other operation completes with its own tokens; late replies are seen by nobody; the driver survives; at quiescence no id is reserved and each timed-out id is handed out again by the allocator and works for the operation that gets it. Non-trivial: an operation times out while another is outstanding and later completes, or a late reply is scripted. Distinct = debug rendering of the operations.",
+        rule: "generated histories of 1-8 operations over the paused virtual clock, concurrent on cloned handles or chained on one handle (40%: the next operation reuses the handle of the previous one, so a timed-out operation is followed by timed and untimed ones on the same handle): single-result operations and direct/EntriesOnly/PagedResults/[EntriesOnly,PagedResults] searches (paged ones with generated page ends, each answered by a follow-up request under a fresh id), each optionally timed (3 ms .. 1 day, and practically infinite values up to Duration::MAX under which the response must still be returned), started at generated instants; scripted response arrival clearly before the deadline (<= T-2 ms), clearly after it (late reply, >= T+2 ms) or never; searches with per-item gaps below or above the timeout. Oracle (exact to Tokio's 1 ms timer granularity): a timed operation returns Timeout at start+T if nothing arrived, else its own response at the arrival instant; a search's deadline restarts at every next() call, so it times out at the first gap > T and not otherwise however long the whole search takes; every other operation completes with its own tokens; late replies are seen by nobody; the driver survives; at quiescence no id is reserved and each timed-out id is handed out again by the allocator and works for the operation that gets it. Lane blocked-writer: 0-89 untimed operations queued at a driver that is stuck writing (send buffer full), then a timed operation or search start: it must time out exactly at its deadline, the queued operations complete once the socket drains, a later operation works and nothing stays reserved. Non-trivial: an operation times out while another is outstanding and later completes, or a late reply is scripted. Distinct = debug rendering of the operations.",
         assumptions: &["no ties: |arrival - deadline| >= 2 ms", "tokio paused clock: virtual time advances only when every task is idle"],
-        lanes: vec![Box::new(PLane { name: "timeouts", cases: |t| t.pick(2_000, 30_000), strat, check })],
+        lanes: vec![
+            Box::new(PLane { name: "timeouts", cases: |t| t.pick(2_000, 30_000), strat, check }),
+            Box::new(PLane { name: "blocked-writer", cases: |t| t.pick(150, 2_000), strat: q_strat, check: check_q }),
+        ],
         workers: (8, 16),
     }
 }
